@@ -12,6 +12,8 @@ import Driver.SpecOps
 import Driver.SerOps
 import Driver.TreeOps
 import Driver.SanOps
+import Driver.StreamOps
+import Driver.EncOps
 import H5.Model.Walker
 import H5.Model.Sax
 import H5.Model.InjectMeta
@@ -107,7 +109,7 @@ def handle (ws : List String) : String :=
   | op :: rest =>
     if op.startsWith "xml:" then handleXml (op :: rest) else
     -- add-on op files: one `List String → Option String` handler each
-    match [handleTok, handleSpec, handleSer, handleTreeOps, handleSan].findSome? (fun h => h (op :: rest)) with
+    match [handleTok, handleSpec, handleSer, handleTreeOps, handleSan, handleStream, handleEnc].findSome? (fun h => h (op :: rest)) with
     | some r => r
     | none => "bad-op"
   | _ => "bad-op"
